@@ -31,7 +31,8 @@ Definition seg_0 : seg := SNum (cz 48) [].
 Lemma segs_ok : Forall seg_ok [seg_b; seg_c; seg_0].
 Proof.
   apply Forall_cons; [split; [reflexivity| apply Forall_nil]|].
-  apply Forall_cons; [repeat split; try reflexivity; try apply Forall_nil; apply Forall_cons; [cbn; discriminate| apply Forall_nil]|].
+  apply Forall_cons; [cbn [seg_ok seg_c]; split; [reflexivity|]; split; [reflexivity|]; split; [apply Forall_nil|]; split; [apply Forall_nil|];
+    split; [left; split; [reflexivity|]; split; [reflexivity|]; apply Forall_cons; [cbn; discriminate| apply Forall_nil]| reflexivity]|].
   apply Forall_cons; [split; [reflexivity| apply Forall_nil]| apply Forall_nil].
 Qed.
 Definition sel_mixed : selr := of_mixed (cz 97) [] [seg_b; seg_c; seg_0] eq_refl (Forall_nil _) segs_ok ltac:(cbn; discriminate).
